@@ -121,9 +121,10 @@ while len(cases) < ncase:
             # so a cached printed form that is not invalidated shows
             _ = (str(f), repr(g), f.hill, g.hill)
             h = wide_count() * f
-            _ = str(h)
-            h += g
             add_case(h, "arithmetic")
+            h2 = wide_count() * h
+            h2 += g
+            add_case(h2, "arithmetic")
             add_case(wide_count() * f + wide_count() * g, "arithmetic")
         elif k == 3:
             parts = []
@@ -133,6 +134,7 @@ while len(cases) < ncase:
         else:
             f = formula(wide_nested(2))
             _ = (str(f), f.hill)
+            add_case(wide_count() * f, "arithmetic")
             f2 = wide_count() * f
             f2 += formula(pool.atom())
             add_case(f2, "arithmetic")
